@@ -1,79 +1,49 @@
 package c14
 
 import (
-	"context"
 	"fmt"
 	"os"
 	"testing"
-	"time"
 
-	"github.com/sourcenetwork/defradb/crypto"
+	"github.com/sourcenetwork/defradb/internal/db"
 	netConfig "github.com/sourcenetwork/defradb/net/config"
 	"github.com/sourcenetwork/defradb/node"
 	"github.com/sourcenetwork/defradb/verifharness/hx"
 )
 
-func TestProbe(t *testing.T) {
+// TestProbeTopicRace: create a document and immediately AddP2PDocuments it; count dropped subscriptions.
+func TestProbeTopicRace(t *testing.T) {
 	if os.Getenv("C14_PROBE") == "" {
 		t.Skip()
 	}
-	dir, rm := hx.Scratch("probe")
-	defer rm()
-	opts := []node.Option{
-		node.WithBadgerInMemory(false),
-		node.WithStorePath(dir + "/db"),
-		node.WithDisableAPI(true),
-		node.WithDisableP2P(true),
-		node.WithDocumentACPType(node.LocalDocumentACPType),
-		node.WithDocumentACPPath(dir + "/acp"),
-	}
-	t0 := time.Now()
-	n, err := hx.NewNode(opts...)
+	n, err := hx.NewNode(node.WithBadgerInMemory(true), node.WithDisableAPI(true), node.WithDisableP2P(false),
+		node.WithDocumentACPType(node.NoDocumentACPType), db.WithEnabledSigning(false),
+		netConfig.WithListenAddresses("/ip4/127.0.0.1/tcp/0"))
 	if err != nil {
 		t.Fatal(err)
 	}
-	fmt.Println("boot file", time.Since(t0))
-	_, err = n.DB.AddSchema(n.Ctx, `type A { s: String @index  i: Int }`)
-	fmt.Println("addschema", err)
-	r := n.Exec(`mutation { create_A(input:{s:"x", i:1}) { _docID } }`)
-	fmt.Println(r.Data, r.Errors)
-	t0 = time.Now()
-	n.Close()
-	fmt.Println("close file", time.Since(t0))
-	for i := 0; i < 3; i++ {
-		t0 = time.Now()
-		n, err = hx.NewNode(opts...)
-		if err != nil {
+	defer n.Close()
+	if _, err := n.DB.AddSchema(n.Ctx, `type A { i: Int }`); err != nil {
+		t.Fatal(err)
+	}
+	missing := 0
+	const N = 300
+	for i := 0; i < N; i++ {
+		r := n.Exec(fmt.Sprintf(`mutation { create_A(input: {i: %d}) { _docID } }`, i))
+		id := r.Rows("create_A")[0]["_docID"].(string)
+		if err := n.N.Peer.AddP2PDocuments(n.Ctx, id); err != nil {
 			t.Fatal(err)
 		}
-		fmt.Println("reboot file", time.Since(t0))
-		r = n.Exec(`query { A { _docID s i } }`)
-		fmt.Println(r.Data, r.Errors)
-		t0 = time.Now()
-		n.Close()
-		fmt.Println("close file", time.Since(t0))
-	}
-	// p2p
-	key, _ := crypto.GenerateEd25519()
-	_ = key
-	seed := make([]byte, 32)
-	seed[0] = 7
-	popts := []node.Option{
-		node.WithBadgerInMemory(true),
-		node.WithDisableAPI(true),
-		node.WithDisableP2P(false),
-		netConfig.WithListenAddresses("/ip4/127.0.0.1/tcp/0"),
-	}
-	for i := 0; i < 3; i++ {
-		t0 = time.Now()
-		p, err := hx.NewNode(popts...)
-		if err != nil {
-			t.Fatal(err)
+		_, topics := memTables(n.N.Peer)
+		found := false
+		for _, tp := range topics {
+			if tp == id {
+				found = true
+			}
 		}
-		fmt.Println("boot p2p", time.Since(t0), p.N.Peer.PeerInfo())
-		t0 = time.Now()
-		p.Close()
-		fmt.Println("close p2p", time.Since(t0))
+		if !found {
+			missing++
+		}
 	}
-	_ = context.Background()
+	fmt.Printf("AddP2PDocuments right after create: %d of %d subscriptions silently missing\n", missing, N)
 }
